@@ -16,14 +16,11 @@ import (
 	"errors"
 	"fmt"
 	"math/rand/v2"
-	"os"
 	"path/filepath"
 	"runtime/debug"
-	"runtime/pprof"
 	"sort"
 	"sync"
 	"sync/atomic"
-	"time"
 
 	"github.com/gnolang/gno/tm2/pkg/bptree"
 	dbm "github.com/gnolang/gno/tm2/pkg/db"
@@ -751,7 +748,7 @@ func run(c *vf.Ctx) {
 	// the monitors allocate heavily with small node caches (every node access
 	// deserialises a ~5 KB node); a lazier GC keeps 14 workers from thrashing
 	defer debug.SetGCPercent(debug.SetGCPercent(400))
-	n := c.N(34, 420)
+	n := c.N(34, 700)
 	caches := []int{10000, 0, 64, 1, 10000, 64}
 	var agg struct {
 		ops      [bpgen.NumOpKinds]atomic.Int64
@@ -770,19 +767,7 @@ func run(c *vf.Ctx) {
 	modeCases := map[string]int{}
 	var evMu sync.Mutex
 
-	only := -1
-	if v := os.Getenv("C23_ONLY"); v != "" { // debugging aid: run a single case (the result is then inconclusive by construction)
-		fmt.Sscan(v, &only)
-	}
-	if pf := os.Getenv("C23_PROF"); pf != "" {
-		f, _ := os.Create(pf)
-		pprof.StartCPUProfile(f)
-		defer pprof.StopCPUProfile()
-	}
 	c.Parallel(n, 14, 1000, func(i int, rng *rand.Rand) {
-		if only >= 0 && i != only {
-			return
-		}
 		p := bpgen.GenParams{
 			Mode:       bpgen.KeyMode(i % int(bpgen.NumModes)),
 			Admin:      true,
@@ -812,11 +797,7 @@ func run(c *vf.Ctx) {
 		e := &exec{c: c, id: i, h: h, cfg: cf, rng: rng, snaps: map[int64]bpgen.Snapshot{}, hashes: map[int64][]byte{}, ev: map[string]int{},
 			wide: cf.Cache >= 64 && cf.Backend == "memdb",
 			dir:  filepath.Join(c.WorkDir, fmt.Sprintf("case%d", i))}
-		t0 := time.Now()
 		e.run()
-		if os.Getenv("C23_TIMING") != "" {
-			c.Logf("case %d %s %s: %.1fs ops=%d maxH=%d", i, p, cf, time.Since(t0).Seconds(), len(h.Ops), e.maxH)
-		}
 
 		nontrivial := e.ev["leaf-split-90-10"]+e.ev["leaf-split-50-50"]+e.ev["leaf-split-other"] > 0 &&
 			e.ev["leaf-merge"]+e.ev["leaf-redistribute-from-left"]+e.ev["leaf-redistribute-from-right"] > 0 &&
